@@ -92,8 +92,11 @@ def check_trim_orientation(chk, MX):
     rng = chk.rng
     sd, ac, st, cs = gen_case(chk)
     kw = {}
-    if rng.random() < 0.5:
+    if rng.random() < 0.5 and getattr(chk, "round", 0) != 0:
+        # (round 0: the default lift target - the weight coefficient - on a banked aircraft, whatever the draw)
         kw["CL"] = round(rng.uniform(0.2, 0.6), 3)
+    if getattr(chk, "round", 0) == 0 and abs(st["orientation"][0]) < 10.0:
+        st["orientation"][0] = 30.0
     sc = gen.build_scene(MX, sd, [("a", ac, st, cs)])
     if getattr(chk, "round", 0) % 2 == 1:
         # targets that the aircraft meets as it is (its present CL and Cm): the answer of an aircraft that is already trimmed
